@@ -267,13 +267,32 @@ class EsTreeGen:
                 # beyond any "reasonable" limit a change may introduce (a clause count, a chunk size): seeded C05-G
                 n = r.choice([130, 1030])
             ch = []
+            wrap = r.choice([None, None, "Prohibit", "Plus", "Not"]) if wide else None
             for _ in range(n):
-                c = self.leaf() if wide and r.random() < 0.97 else self.tree(min(d - 1, 1) if wide else d - 1, base)
+                if wide and r.random() < 0.97:
+                    c = self.leaf() if wrap is None or r.random() < 0.2 else self.nm(gen.mk(wrap, [self.leaf()]))
+                else:
+                    c = self.tree(min(d - 1, 1) if wide else d - 1, base)
                 if not self.mixes and c["c"].endswith("Operation") and c["c"] != cls:
                     c = self.nm(gen.mk("Group", [c]))
                 elif c["c"].endswith("Operation") and c["c"] != cls and r.random() < 0.6:
                     c = self.nm(gen.mk("Group", [c]))
                 ch.append(c)
+            if not wide and r.random() < 0.08:
+                # the same term again among the operands, identical or differing only by a modifier (`smith`,
+                # `smith~1`, `smith^2`): neither occurrence may be dropped or merged (seeded C05-G)
+                import copy as _copy
+                src = r.choice(ch)
+                dup = _copy.deepcopy(src)
+                dup["n"] = None
+                k2 = r.random()
+                if src["c"] == "Word" and k2 < 0.4:
+                    dup = gen.mk("Fuzzy", [dup], num=r.choice([gen.num(1), gen.num(2)]))
+                elif src["c"] == "Phrase" and k2 < 0.4:
+                    dup = gen.mk("Proximity", [dup], num=r.choice([gen.num(1), gen.num(3)]))
+                elif k2 < 0.7 and not src["c"].endswith("Operation"):
+                    dup = gen.mk("Boost", [dup], num=gen.num(2))
+                ch.insert(r.randrange(len(ch) + 1), dup)
             return self.nm(gen.mk(cls, ch))
         if k < 0.63:
             return self.nm(gen.mk(r.choice(["Not", "Prohibit"]), [self.tree(d - 1, base)]))
